@@ -189,7 +189,7 @@ func verifC11Targets() []*verifC11Target {
 // ---------------------------------------------------------------------------
 
 var verifC11Keys = []string{
-	"", "0", "1", "2", "-1", "999", "1000", "1001", "4294967296",
+	"", "0", "1", "2", "3", "-1", "999", "1000", "1001", "4294967296",
 	"9223372036854775807", "9223372036854775808", "abc", "1.5", " 1", "０",
 }
 
